@@ -26,7 +26,7 @@ type cond struct {
 
 type pstate struct {
 	conds   []cond
-	locks   []string
+	locks   []string // lock operations and map accesses in program order (consecutive accesses collapsed)
 	effects []string // ordered: store X = Y | close(X) | call F | recv X | append Y | visit Y
 	env     map[string]string
 	results []string // roles of the named results (bare return)
@@ -43,6 +43,13 @@ func (p *pstate) clone() *pstate {
 		q.env[k] = v
 	}
 	return q
+}
+
+// access records that the map (or an entry's channel) is touched at this point of the lock sequence.
+func (p *pstate) access() {
+	if n := len(p.locks); n == 0 || p.locks[n-1] != "access" {
+		p.locks = append(p.locks, "access")
+	}
 }
 
 func (p *pstate) cond(atom string) (bool, bool) {
@@ -183,6 +190,7 @@ func (x *exec) callStmt(c *ast.CallExpr, st *pstate, deferred bool) {
 		return
 	}
 	if id, ok := c.Fun.(*ast.Ident); ok && id.Name == "close" {
+		st.access()
 		st.effects = append(st.effects, pre+"close("+x.role(c.Args[0], st)+")")
 		return
 	}
@@ -236,6 +244,7 @@ func (x *exec) assign(a *ast.AssignStmt, st *pstate) {
 	if len(a.Lhs) == 2 && len(a.Rhs) == 1 {
 		if ix, ok := a.Rhs[0].(*ast.IndexExpr); ok {
 			st.lookups++
+			st.access()
 			if got := x.role(ix, st); got != "recv."+x.mapName+"[p0]" {
 				x.bad(a, "lookup of something else than recv.m[key]: "+got)
 			}
@@ -280,6 +289,7 @@ func (x *exec) assign(a *ast.AssignStmt, st *pstate) {
 			}
 			x.bind(lt, r, st)
 		case *ast.IndexExpr:
+			st.access()
 			st.effects = append(st.effects, "store "+x.role(lt, st)+" = "+x.role(a.Rhs[i], st))
 		case *ast.SelectorExpr:
 			base := x.role(lt.X, st)
@@ -369,6 +379,7 @@ func (x *exec) stmt(s ast.Stmt, st *pstate, k func(*pstate)) {
 			x.bad(s, "range over something else than recv.m")
 		}
 		st.lookups++
+		st.access()
 		if t.Key != nil {
 			x.bind(t.Key, fmt.Sprintf("key#%d", st.lookups), st)
 		}
@@ -516,7 +527,7 @@ const rowType = "List (String × String × String × String × List String × Li
 func main() {
 	f := xlib.Parse("src/cmap/cmap.go")
 	out := xlib.NewOut("C15", f.Path, "src/cmap/cerrmap.go")
-	out.Raw("-- a row is (case, store, close, returned values, calls, lock operations, unclassified effects)")
+	out.Raw("-- a row is (case, store, close, returned values, calls, lock operations and map accesses in program order, further effects)")
 
 	// the map field of shard
 	mapName := "m"
